@@ -54,7 +54,7 @@ class _Jitter:
         raise RuntimeError("harness: un-owned randomness in wamp/component.py: random.%s" % name)
 
 
-_state = {"jitter": None, "spy": None, "run": None, "logobs": None}
+_state = {"jitter": None, "run": None, "logobs": None, "gc": False}
 
 
 def _install_once():
@@ -539,12 +539,12 @@ class Run:
         elif kind == "refused":
             r = name == "ConnectionRefusedError"
         elif kind == "abort":
-            r = name == "ApplicationError"
+            r = name == "ApplicationError" and getattr(e, "error", None) == "wamp.error.no_such_realm"
         elif kind == "always":
             r = True
         else:
             raise RuntimeError(kind)
-        self.fatal_calls.append((name, r))
+        self.fatal_calls.append((name, r, len(self.attempts) - 1))
         return r
 
     def _main(self, reactor, session):
@@ -693,7 +693,6 @@ class Run:
         gc.collect()
         late = list(self.logged[n_log:])
         if errs is not None:
-            self.env.escapes  # noqa
             late += ["%s: %s" % (type(c.get("exception")).__name__, str(c.get("message"))[:120])
                      for c in errs[n_err:]]
         self._obs["late_errors"] = late
